@@ -18,8 +18,8 @@ SeqSet(s) == {s[i] : i \in DOMAIN s}
 MsgOfObs(r) == [id |-> r.id, kind |-> r.kind, sender |-> r.sender, assignee |-> r.assignee, remote |-> r.remote,
                 needsEst |-> r.needsEst, est |-> r.est, pad |-> r.pad, err |-> r.err,
                 fees |-> <<r.fees[1], r.fees[2], r.fees[3]>>,
-                subs |-> {[v |-> r.subs[i].v, g |-> r.subs[i].g] : i \in DOMAIN r.subs}]
-Ids(Q) == {m.id : m \in Q}
+                subs |-> {[v |-> r.subs[i].v, g |-> r.subs[i].g] : i \in DOMAIN r.subs},
+                mev |-> r.mev, retries |-> r.retries, ev |-> SeqSet(r.ev)]
 
 \* bind the state to the recorded projection
 Bind(e, nr, rs, id0) ==
@@ -40,14 +40,16 @@ Always(e) ==
   \* fees exist only on messages whose gas estimate has been elected
   /\ Report("C14.FeesOnlyWithElection", \A m \in queue' \cup queueH' : m.est = 0 => m.fees = NoFees)
   \* assignment and content of a queued message never change behind the back of the protocol
-  /\ Conf("MessageStable", \A m \in queue : \A n \in queue' : n.id = m.id =>
-            n.kind = m.kind /\ n.sender = m.sender /\ n.assignee = m.assignee /\ n.remote = m.remote /\ n.needsEst = m.needsEst)
+  /\ Conf("MessageStable", \A m \in queue \cup queueH : \A n \in queue' \cup queueH' : n.id = m.id =>
+            /\ n.kind = m.kind /\ n.sender = m.sender /\ n.assignee = m.assignee /\ n.remote = m.remote /\ n.needsEst = m.needsEst
+            /\ n.mev = m.mev /\ n.retries = m.retries)
   \* modelling assumptions of the score: all metrics but the feature set are equal; feature set = share of the
   \* validator's accounts carrying the MEV trait at snapshot time
   /\ Conf("UniformMetrics", e.obs.uniform)
   /\ Conf("FeatureIsMev", \A v \in Vals : (snap'[v].member /\ perf'[v]) => e.obs.feat[v] = 50 * Feat2(snap', v))
-  \* only an Assign to the home chain touches the home chain's logic calls
-  /\ (e.act # "Assign" => Conf("HomeQueueStable", queueH' = queueH))
+  \* a message appears in a queue only through an assignment (Assign, retry in EndBlockAtt) or a Put of the harness
+  /\ (e.act \notin {"Assign", "EndBlockAtt", "Put"} =>
+        Report("C14.NoUnassignedEnqueue", Ids(queue' \cup queueH') \subseteq Ids(queue \cup queueH)))
 
 TabsUnchanged == cur' = cur /\ snap' = snap /\ fee' = fee /\ feeH' = feeH /\ perf' = perf
 
@@ -62,7 +64,8 @@ TrSetup == IsEvent("Setup") /\ LET e == Trace[l]  T == [v \in Vals |-> e.args.ro
   /\ Bind(e, N, e.res, nextId)
   /\ Always(e)
   /\ ConfD("Setup", /\ cur' = [v \in Vals |-> CurOf(T[v])] /\ snap' = SnapOf(cur')
-                    /\ fee' = [v \in Vals |-> T[v].fee] /\ feeH' = feeH /\ perf' = [v \in Vals |-> T[v].perf] /\ queue' = queue,
+                    /\ fee' = [v \in Vals |-> T[v].fee] /\ feeH' = [v \in Vals |-> T[v].feeH]
+                    /\ perf' = [v \in Vals |-> T[v].perf] /\ queue' = queue,
            <<cur', snap', fee', perf'>>)
 
 TrRereg == IsEvent("Rereg") /\ LET e == Trace[l]  a == e.args IN
@@ -86,7 +89,8 @@ TrAssign == IsEvent("Assign") /\ LET e == Trace[l]  a == e.args  c == a.c  ok ==
      /\ (ok => Report("C14.EnqueuedOnce",
                   /\ Cardinality(new) = 1 /\ other
                   /\ \A m \in new : /\ m.id \notin Ids(queue \cup queueH) /\ m.kind = "slc" /\ m.sender = a.s /\ m.needsEst /\ m.est = 0
-                                    /\ ~m.pad /\ ~m.err /\ m.fees = NoFees /\ m.subs = {}))
+                                    /\ ~m.pad /\ ~m.err /\ m.fees = NoFees /\ m.subs = {}
+                                    /\ m.mev = a.mev /\ m.retries = 0 /\ m.ev = {}))
      \* in the snapshot, account ON THE CHAIN OF THE JOB, fee and metrics on record, MEV trait OF THAT ACCOUNT if demanded
      /\ (ok => Report("C14.AssigneeEligible", \A m \in new : m.assignee \in Vals /\ PickOK(snap, fe, perf, c, m.assignee, a.mev)))
      /\ (ok => Report("C14.RemoteAddressFromSnapshot",
@@ -102,30 +106,69 @@ TrAssign == IsEvent("Assign") /\ LET e == Trace[l]  a == e.args  c == a.c  ok ==
 TrPut == IsEvent("Put") /\ LET e == Trace[l]  a == e.args IN
   /\ Bind(e, nrows, e.res, nextId)
   /\ Always(e)
-  /\ LET new == queue' \ queue IN
-     Conf("Put", /\ Cardinality(new) = 1 /\ TabsUnchanged
+  /\ LET new == IF a.c = "t" THEN queue' \ queue ELSE queueH' \ queueH IN
+     Conf("Put", /\ Cardinality(new) = 1 /\ TabsUnchanged /\ (IF a.c = "t" THEN queueH' = queueH ELSE queue' = queue)
                  /\ \A m \in new : m.id >= nextId /\ m = Msg(m.id, a.kind, a.s, a.a, 1, a.ne))
+
+TrSetFee == IsEvent("SetFee") /\ LET e == Trace[l]  a == e.args IN
+  /\ Bind(e, nrows, e.res, nextId)
+  /\ Always(e)
+  /\ Conf("SetFee", SetFee(a.v, a.c, a.f))
 
 TrEstimate == IsEvent("Estimate") /\ LET e == Trace[l]  a == e.args IN
   /\ Bind(e, nrows, e.res, nextId)
   /\ Always(e)
   /\ Conf("Estimate", Estimate(a.v, e.rid, a.g))
 
+TrAttestErr == IsEvent("AttestErr") /\ LET e == Trace[l]  a == e.args IN
+  /\ Bind(e, nrows, e.res, nextId)
+  /\ Always(e)
+  /\ Conf("AttestErr", AttestErr(a.v, e.rid))
+
+\* the fees attached at election: ceil(multiplicator of the assignee ON THE CHAIN OF THE MESSAGE * gas), ceil(rate * relayer fee)
+FeesCeilOn(Q, Q2, fe) ==
+  \A m \in Q : \A n \in Q2 :
+    (n.id = m.id /\ m.est = 0 /\ n.est > 0 /\ n.kind = "slc") =>
+       /\ n.assignee \in Vals /\ fe[n.assignee] > 0
+       /\ n.fees = FeesFor(fe[n.assignee], CommRate, SecRate, n.est, Scale)
+       /\ IsCeilOf(n.fees[1], fe[n.assignee], n.est, Scale)
+       /\ IsCeilOf(n.fees[2], CommRate, n.fees[1], Scale) /\ IsCeilOf(n.fees[3], SecRate, n.fees[1], Scale)
 TrEndBlock == IsEvent("EndBlock") /\ LET e == Trace[l] IN
   /\ Bind(e, nrows, e.res, nextId)
   /\ Always(e)
-  \* the fees attached at election: ceil(multiplicator of the assignee * gas), ceil(rate * relayer fee)
-  /\ Report("C14.FeesCeil",
-       \A m \in queue : \A n \in queue' :
-         (n.id = m.id /\ m.est = 0 /\ n.est > 0 /\ n.kind = "slc") =>
-            /\ n.assignee \in Vals /\ fee[n.assignee] > 0
-            /\ n.fees = FeesFor(fee[n.assignee], CommRate, SecRate, n.est, Scale)
-            /\ IsCeilOf(n.fees[1], fee[n.assignee], n.est, Scale)
-            /\ IsCeilOf(n.fees[2], CommRate, n.fees[1], Scale) /\ IsCeilOf(n.fees[3], SecRate, n.fees[1], Scale))
+  /\ Report("C14.FeesCeil", FeesCeilOn(queue, queue', fee) /\ FeesCeilOn(queueH, queueH', feeH))
   /\ Report("C14.FeesOnlyAtElection",
-       \A m \in queue : \A n \in queue' : (n.id = m.id /\ (m.est > 0 \/ n.est = 0)) => n.fees = m.fees)
+       \A m \in queue \cup queueH : \A n \in queue' \cup queueH' : (n.id = m.id /\ (m.est > 0 \/ n.est = 0)) => n.fees = m.fees)
   /\ Conf("EndBlock.nopanic", e.res = "eb")
-  /\ ConfD("EndBlock", queue' = ElectAllT(snap, fee, queue) /\ TabsUnchanged, <<queue', ElectAllT(snap, fee, queue)>>)
+  /\ ConfD("EndBlock", queue' = ElectAllT(snap, fee, queue) /\ queueH' = ElectAllT(snap, feeH, queueH) /\ TabsUnchanged,
+           <<queue', ElectAllT(snap, fee, queue), queueH', ElectAllT(snap, feeH, queueH)>>)
+
+\* the retry of a logic call whose relay failure was attested is an assignment like any other
+RetryOn(Q, Q2, old, fe, c) ==
+  \A m \in {x \in Q2 : x.id \notin old} :
+    /\ Report("C14.AssigneeEligible", m.kind = "slc" /\ m.assignee \in Vals /\ PickOK(snap, fe, perf, c, m.assignee, m.mev))
+    /\ Report("C14.RemoteAddressFromSnapshot", m.assignee \in Vals => (m.remote # 0 /\ m.remote = AcctOn(snap, m.assignee, c)))
+    /\ Report("C14.NoEligibleNoEnqueue", EligibleT(snap, fe, perf, c, m.mev) # {})
+    /\ Report("C14.RetryKeepsRequirements",
+          \E o \in Q \ Q2 : /\ o.kind = "slc" /\ o.id \notin Ids(Q2) /\ m.sender = o.sender /\ m.mev = o.mev
+                             /\ m.retries = o.retries + 1 /\ m.retries <= MaxRetries)
+    /\ Report("C14.EnqueuedFresh", m.needsEst /\ m.est = 0 /\ ~m.pad /\ ~m.err /\ m.fees = NoFees /\ m.subs = {} /\ m.ev = {})
+TrEndBlockAtt == IsEvent("EndBlockAtt") /\ LET e == Trace[l]  old == Ids(queue \cup queueH) IN
+  /\ Bind(e, nrows, e.res, nextId)
+  /\ Always(e)
+  /\ RetryOn(queue, queue', old, fee, "t")
+  /\ RetryOn(queueH, queueH', old, feeH, "h")
+  \* at most one retry per message that left
+  /\ Report("C14.RetryOnce", Cardinality(Ids(queue' \cup queueH') \ old) <= Cardinality(old \ Ids(queue' \cup queueH')))
+  /\ Conf("EndBlockAtt.nopanic", e.res = "eba")
+  /\ Conf("EndBlockAtt.time", e.obs.tmod = e.args.t % 60)
+  /\ LET r == AttestAll(e.args.t)
+         \* real ids are not contiguous (other queues draw from the same counter): compare up to the ids of new messages
+         Strip(Q) == {[m EXCEPT !.id = IF m.id \in old THEN m.id ELSE 0] : m \in Q} IN
+     ConfD("EndBlockAtt", /\ Strip(queue') = {[m EXCEPT !.id = IF m.id \in old THEN m.id ELSE 0] : m \in r.qt}
+                          /\ Strip(queueH') = {[m EXCEPT !.id = IF m.id \in old THEN m.id ELSE 0] : m \in r.qh}
+                          /\ TabsUnchanged,
+           <<queue', r.qt, queueH', r.qh>>)
 
 TrDeliver == IsEvent("Deliver") /\ LET e == Trace[l] IN
   /\ Bind(e, nrows, e.res, nextId)
@@ -153,7 +196,8 @@ TrQuery == IsEvent("Query") /\ LET e == Trace[l]
   /\ ConfD("Query", \A v \in Vals : raw[v] = ForRelayQ(queue, v), <<raw, [v \in Vals |-> ForRelayQ(queue, v)]>>)
 
 TraceInit == Init /\ l = 1
-TraceNext == \/ TrInit \/ TrSetup \/ TrRereg \/ TrResnap \/ TrAssign \/ TrPut \/ TrEstimate \/ TrEndBlock
+TraceNext == \/ TrInit \/ TrSetup \/ TrRereg \/ TrResnap \/ TrAssign \/ TrPut \/ TrSetFee \/ TrEstimate \/ TrAttestErr
+             \/ TrEndBlock \/ TrEndBlockAtt
              \/ TrDeliver \/ TrFail \/ TrQuery
 TraceAccepted == TLCGet("stats").diameter - 1 = Len(Trace)
 =============================================================================
